@@ -15,5 +15,7 @@ EncodeCustom(b) ==
   \o TagPPAL \o LE32(1048) \o TagHead \o LE32(4) \o LE32(1)
   \o TagDat \o LE32(1024) \o Flatten([i \in 1..256 |-> Bgr(FullPalette(t)[i])])       \* the palette section has a fixed length: a partial palette is padded with black
   \o TagDat \o LE32(32 * H) \o Flatten(t.rows)
+\* the same file with another value in the header's bit-depth word (the section layout stays that of an 8-bit picture): not a tileset
+EncodeCustomDepth(b, bd) == LET e == EncodeCustom(b) IN SubSeq(e, 1, 28) \o LE32(bd) \o SubSeq(e, 33, Len(e))
 IsCustom(prefix4) == prefix4 = TagPBMP
 ====
